@@ -89,6 +89,7 @@ func (p *FloatingIPPlugin) getSubnet(pod *corev1.Pod) (sets.String, error) {
 		return nil, fmt.Errorf("failed to query by key %s: %v", keyObj.KeyInDB, err)
 	}
 	allocatedSubnets := sets.NewString()
+	hasAllocated := false
 	if len(ipranges) == 0 {
 		if len(ipInfos) > 0 {
 			glog.V(3).Infof("%s already have an allocated ip %s in subnets %v", keyObj.KeyInDB,
@@ -103,8 +104,10 @@ func (p *FloatingIPPlugin) getSubnet(pod *corev1.Pod) (sets.String, error) {
 				unallocatedIPRange = append(unallocatedIPRange, ipranges[i])
 			} else {
 				ips = append(ips, ipInfos[i].IP.String())
-				if allocatedSubnets.Len() == 0 {
+				// an empty intersection means no node can route all allocated ips, it must stay empty
+				if !hasAllocated {
 					allocatedSubnets.Insert(ipInfos[i].NodeSubnets.UnsortedList()...)
+					hasAllocated = true
 				} else {
 					allocatedSubnets = allocatedSubnets.Intersection(ipInfos[i].NodeSubnets)
 				}
@@ -140,7 +143,7 @@ func (p *FloatingIPPlugin) getSubnet(pod *corev1.Pod) (sets.String, error) {
 	if err != nil {
 		return nil, err
 	}
-	if allocatedSubnets.Len() > 0 {
+	if hasAllocated {
 		subnetSet = subnetSet.Intersection(allocatedSubnets)
 	}
 	if (reserve || isPoolSizeDefined) && subnetSet.Len() > 0 {
